@@ -119,6 +119,27 @@ static var body_tls(var args) {
   return NULL;
 }
 
+/* formatting: each thread formats with its own (different, short) format text into its own String */
+static var body_fmt(var args) {
+  int me = my_id();
+  int64_t d = 0;
+  var out = new_raw(String);
+  for (int r = 0; r < 2; r++) {
+    char expect[64];
+    if (me % 2) { print_to(out, 0, "a%ib%sc", $I(me * 10 + r), $S("xy")); snprintf(expect, sizeof expect, "a%db%sc", me * 10 + r, "xy"); }
+    else { print_to(out, 0, "<<%s>>=%i;%i", $S("k"), $I(me), $I(r)); snprintf(expect, sizeof expect, "<<%s>>=%d;%d", "k", me, r); }
+    if (strcmp(c_str(out), expect) != 0) sch_fail("formatted-text-differs-from-solo-run", "thread %d formatted \"%s\", alone it produces \"%s\"", me, c_str(out), expect);
+    for (const char* q = c_str(out); *q; q++) d = d * 131 + *q;
+  }
+  volatile int64_t dd = d;
+  try { throw(ValueError, "thread %i says %s", $I(me), $S(me % 2 ? "odd" : "even")); } catch (e) { dd = dd * 7 + 1; }
+  del_raw(out);
+  result[me] = dd;
+  olog((char)('0' + me));
+  done_flag[me] = 1;
+  return NULL;
+}
+
 /* container work on private containers */
 static var body_cont(var args) {
   int me = my_id();
@@ -299,8 +320,9 @@ static void run_free(struct sch_explorer* ex, int runs) {
         int is_src = strstr(file, "/src/") != NULL || strstr(file, "/harness/") != NULL || strstr(file, "/lib/vf") != NULL;
         if (is_src && !(stack == 1 ? f1[0] : f2[0])) {
           snprintf(stack == 1 ? f1 : f2, 96, "%s", fn);
-          if (strstr(file, "/src/GC.c") || strstr(file, "/src/Exception.c") || strstr(file, "/src/Table.c") || strstr(file, "/src/Thread.c") || strstr(file, "/src/Alloc.c")
-              || strstr(fn, "critical")) relevant = 1;
+          /* any unsynchronised access inside the library (the idempotent type-cache fills are suppressed in lib/tsan.supp)
+          ** or inside the Mutex-guarded section of the harness */
+          if ((strstr(file, "/src/") && !strstr(file, "/src/Type.c")) || strstr(fn, "critical")) relevant = 1;
         }
         frame++;
       }
@@ -363,6 +385,7 @@ int main(int argc, char** argv) {
     else if (strcmp(b, "exc") == 0) { the_body = body_exc; the_body_name = "exc"; ex.site_mask = exc_sites | (parent ? gc_sites : 0); }
     else if (strcmp(b, "tls") == 0) { the_body = body_tls; the_body_name = "tls"; ex.site_mask = tab_sites | (parent ? gc_sites : 0); }
     else if (strcmp(b, "cont") == 0) { the_body = body_cont; the_body_name = "cont"; ex.site_mask = tab_sites | (parent ? gc_sites : 0); }
+    else if (strcmp(b, "fmt") == 0) { the_body = body_fmt; the_body_name = "fmt"; ex.site_mask = M(CELLO_VP_TYPE_CACHE_READ) | exc_sites; }
     else { fprintf(stderr, "unknown scenario %s\n", scn); _exit(2); }
     static int64_t solo[SCH_MAXT];
     the_solo = solo;
